@@ -19,7 +19,7 @@ ASSUMPTIONS = ['power / image tolerances 4e-2 (>= 6x the worst interpolation res
                'scale factors are drawn so that n*s is not within 1e-9 of an integer unless it is exactly one']
 PLAN = {'quick': {'gen': 8}, 'thorough': {'gen': 16, 'tests': 1, 'docs': 1}}
 REQUIRED_BUCKETS = ['s<1', 's>1', 's=1', 's:integer', 'shape:odd', 'shape:even', 'shape:nonsquare', 'monolithic', 'segmented',
-                    'resample', 'resample:refused', 'scalar-attributes']
+                    'resample', 'resample:refused', 'scalar-attributes', 'mask-dtype']
 REQUIRED_ANCHORS = ['probe:Plane.rescale', 'anchor:Plane.resample', 'anchor:util.rescale', 'anchor:_plane_slice']
 REQUIRED_ORACLES = ['pixelscale/s', 'shape=ceil(n*s)', 'mask:binary+segments', 'original-untouched', 'identity', 'power',
                     'image', 'extent', 'resample=rescale', 'resample:refused']
@@ -193,6 +193,18 @@ def workload(ctx, lentil):
                 ctx.check(ok, 'resample=rescale', 'resample|value', 'resample(p) is not rescale(pixelscale/p)', desc)
             except Exception as e:
                 ctx.check(False, 'resample=rescale', f'resample|raises={type(e).__name__}', str(e), desc)
+        if i % 3 == 1:
+            # resample to the current pixel scale: still a new plane, the original stays untouched by later edits of the result
+            r0 = pl.resample(dx)
+            fp0 = probe.fingerprint(pl)
+            ok_new = r0 is not pl
+            try:
+                r0.fit_tilt(inplace=True)
+                r0.amplitude = np.asarray(r0.amplitude) * 0.5
+            except Exception:
+                pass
+            ctx.check(ok_new and probe.fingerprint(pl) == fp0, 'original-untouched', 'resample|same-scale|alias',
+                      'resample to the current pixel scale returned the plane itself (editing the result edits the original)', desc)
         if i % 5 == 0:
             ctx.bucket('resample:refused')
             aniso = lentil.Pupil(amplitude=amp, opd=opd, pixelscale=(dx, dx * 1.3), focal_length=z)
@@ -203,6 +215,33 @@ def workload(ctx, lentil):
                               'a plane without pixel scale was not refused by resample')
             # anisotropic plane may still be rescaled: both pixel scales divided
             aniso.rescale(s)
+        if i % 4 == 1:
+            # masks of integer / boolean dtype, and a plane that has already been rescaled once (a history of two calls)
+            ctx.bucket('mask-dtype')
+            mk = (amp > 0) if not seg else (kw['mask'] > 0)
+            for dt in (int, bool, np.uint8):
+                try:
+                    pi_ = lentil.Pupil(amplitude=amp, opd=opd, mask=mk.astype(dt), pixelscale=dx, focal_length=z)
+                    qi = pi_.rescale(s)                       # online oracle: bookkeeping
+                    ctx.check(np.array_equal(np.asarray(qi.mask) != 0, np.asarray(q.mask) != 0), 'mask:binary+segments',
+                              f'rescale|mask-dtype|{np.dtype(dt).name}', 'the rescaled mask depends on the dtype of the supplied mask', desc)
+                except Exception as e:
+                    ctx.check(False, 'mask:binary+segments', f'rescale|mask-dtype|raises={type(e).__name__}',
+                              f'rescale of a plane with a {np.dtype(dt).name} mask raised {type(e).__name__}: {e}', desc)
+            try:
+                s2 = 1.0 / s if rng.random() < 0.5 else float(rng.choice([1.5, 2.0, 0.75]))
+                qq = q.rescale(s2)                            # online oracle: bookkeeping of the second step
+                with probe.quiet():
+                    wc = lentil.Wavefront(wl) * qq
+                    P2 = float(np.sum(np.abs(wc.field) ** 2))
+                    c = lentil.propagate_dft(wc, du, shape=24, oversample=1).intensity
+                ctx.close('power', np.array([P2]), np.array([P0]), 2 * TOL, 'rescale|twice|power',
+                          'transmitted power is not preserved by two successive rescales', dict(desc, s2=s2), scale=P0)
+                ctx.close('image', c, a, 2 * TOL, 'rescale|twice|image', 'propagated image is not preserved by two successive rescales',
+                          dict(desc, s2=s2), scale=float(a.max()))
+            except Exception as e:
+                ctx.check(False, 'image', f'rescale|twice|raises={type(e).__name__}',
+                          f'rescaling an already rescaled plane raised {type(e).__name__}: {e}', desc)
         if i % 7 == 0:
             # scalar opd / scalar amplitude with array mask
             ctx.bucket('scalar-attributes')
